@@ -11,6 +11,7 @@
 -/
 import PgVerif.Proofs.Isolation
 import PgVerif.Proofs.IsolationRows
+import PgVerif.Proofs.PageSize
 namespace PgVerif.Props.C10.Isolation
 open PgVerif PgVerif.Model PgVerif.Proofs PgVerif.Proofs.Isolation
 
@@ -171,5 +172,27 @@ example : AgreeOutside [1, 2, 3, 4] [1, 9, 9, 4] 1 3 := by
   | 1, h => omega
   | 2, h => omega
   | (n+3), _ => rfl
+
+/-! ## resource clause at the tuple level: what one page can report -/
+
+/-- **One page reports at most one page of tuple data — when line pointers do not share storage.**  For ANY page bytes
+(at least 8192) with a valid header whose line-pointer array parses to `items`: if the storage areas of the pointers
+ParsePage accepts (NORMAL, non-empty, inside `[pd_upper, 8192)`) are pairwise disjoint, the data bytes of all reported
+tuples add up to at most 8192.  The hypothesis `hdis` is exactly the class carved out by the OPEN finding
+`C10-page-alias`: PostgreSQL never overlaps tuples, ParsePage does not check it, and without it nothing bounds the sum
+(n pointers to one tuple report n copies: family `resource`, cases 0–2, reports "amplified"). -/
+theorem C10_size_parsePage_disjoint (data : Bytes) (h : PageHeader) (items : List ItemID) (ts : List HeapTuple)
+    (hd : 8192 ≤ data.length) (hh : parseHeader data = .ok h) (hv : validHeader h = true)
+    (hi : parseItems data h.lower = .ok items)
+    (hdis : (items.filter (PageSize.accepted h.upper)).Pairwise PageSize.Disj)
+    (hp : parsePage data = .ok ts) : (ts.map fun t => t.data.length).sum ≤ 8192 := by
+  rw [parsePage_items data hd h hh hv items hi] at hp
+  exact Nat.le_trans (PageSize.collect_weight data hd h.upper items ts hp) (PageSize.weight_le_page h.upper items hdis)
+
+/-- the hypothesis is satisfiable (two accepted pointers with disjoint storage) and is what fails for aliasing pointers -/
+example : ([⟨8000, 100, 1⟩, ⟨8100, 92, 1⟩].filter (PageSize.accepted 7000)).Pairwise PageSize.Disj := by
+  simp [PageSize.accepted, PageSize.Disj]
+example : ¬ ([⟨8000, 100, 1⟩, ⟨8000, 100, 1⟩].filter (PageSize.accepted 7000)).Pairwise PageSize.Disj := by
+  simp [PageSize.accepted, PageSize.Disj]
 
 end PgVerif.Props.C10.Isolation
